@@ -31,6 +31,7 @@ import (
 	pikowebsocket "github.com/andydunstall/piko/pkg/websocket"
 	"github.com/andydunstall/piko/server/cluster"
 	"github.com/andydunstall/piko/server/config"
+	"github.com/spf13/pflag"
 	"github.com/andydunstall/piko/server/upstream"
 )
 
@@ -240,7 +241,19 @@ func TestVerifHarness_RebalanceSched(t *testing.T) {
 	}
 	out := struct {
 		Cases []vhrbsObs `json:"cases"`
+		// the configuration `piko server` starts from when no flag is given: Default(), then RegisterFlags (pflag writes every
+		// flag's default into its target), then an empty command line
+		DefaultsBefore json.RawMessage `json:"defaults_before"`
+		DefaultsAfter  json.RawMessage `json:"defaults_after"`
 	}{Cases: make([]vhrbsObs, len(in.Cases))}
+	func() {
+		conf := config.Default()
+		out.DefaultsBefore, _ = json.Marshal(conf)
+		fs := pflag.NewFlagSet("piko", pflag.ContinueOnError)
+		conf.RegisterFlags(fs)
+		_ = fs.Parse(nil)
+		out.DefaultsAfter, _ = json.Marshal(conf)
+	}()
 	var wg sync.WaitGroup
 	for i := range in.Cases {
 		wg.Add(1)
